@@ -13,5 +13,12 @@ for l in open('/verif/properties.jsonl'):
     if d['id']==sys.argv[1]:
         print(json.dumps(d,indent=1))
 PY
-sed "s/__ID__/$ID/g" /verif/tools/seed_prompt.txt > "$WT/TASK.md"
+EMPH="${2:-}"
+python3 - "$ID" "$EMPH" > "$WT/TASK.md" <<'PY'
+import sys
+t=open('/verif/tools/seed_prompt.txt').read().replace('__ID__',sys.argv[1])
+e=sys.argv[2]
+t=t.replace('__EMPHASIS__\n\n', ('For this round, prefer a change whose trigger is of this kind: %s. (If that is impossible for this property, any kind of trigger that satisfies (3) is fine.)\n\n' % e) if e else '')
+sys.stdout.write(t)
+PY
 echo "$WT"
